@@ -1123,11 +1123,13 @@ def args_strategy(depth=3, max_attrs=5):
     return strat
 
 
-def invalid_args_strategy():
-    """Argument lists containing exactly one construct from the documented-invalid list."""
+def invalid_args_strategy(focus=None):
+    """Argument lists containing exactly one construct from the documented-invalid list.
+    focus: None (all kinds) | "value" (invalid construct inside a value) | "kw" (`key=...x`, `key=*x`, `key=**x`)
+    | "top" (top-level `*x` / `**x`)."""
     st = _st()
-    if "invalid" in _strat_cache:
-        return _strat_cache["invalid"]
+    if ("invalid", focus) in _strat_cache:
+        return _strat_cache[("invalid", focus)]
     leaf = leaf_strategy().filter(lambda lf: lf["b"]["t"] != "trans")
     lvar = _spread_leaf(LIST_PATHS)
     dvar = _spread_leaf(DICT_PATHS)
@@ -1178,17 +1180,16 @@ def invalid_args_strategy():
         st.tuples(inval_value, _key_leaf()).map(lambda t: dct(pair(t[1], t[0]))),
     )
     plain_key = st.sampled_from(PLAIN_KEYS + SPECIAL_KEYS)
+    # key=...x  /  key=*x / key=**x
     kw_spread = st.tuples(plain_key, toks, spv).map(lambda t: {"t": "kw", "k": t[0], "v": sp(t[1], t[2])})
-    inval_attr = st.one_of(
+    # top-level *x / **x
+    top_wrong = st.tuples(st.sampled_from(["*", "**"]), spv).map(lambda t: {"t": "sp", "tok": t[0], "v": t[1]})
+    in_value = st.one_of(
         wrapped.map(lambda v: {"t": "pos", "v": v}),
         st.tuples(plain_key, wrapped).map(lambda kv: {"t": "kw", "k": kv[0], "v": kv[1]}),
         st.tuples(plain_key, wrapped).map(lambda kv: {"t": "kw", "k": kv[0], "v": kv[1]}),
-        # key=...x  /  key=*x / key=**x
-        kw_spread,
-        kw_spread,
-        # top-level *x / **x
-        st.tuples(st.sampled_from(["*", "**"]), spv).map(lambda t: {"t": "sp", "tok": t[0], "v": t[1]}),
     )
+    inval_attr = {"value": in_value, "kw": kw_spread, "top": top_wrong}.get(focus) or st.one_of(in_value, kw_spread, top_wrong)
     valid = args_strategy(depth=2, max_attrs=3)
 
     def combine(t):
@@ -1209,7 +1210,7 @@ def invalid_args_strategy():
         return {"attrs": attrs, "flag": base["flag"], "flag_pos": base["flag_pos"]}
 
     strat = st.tuples(valid, inval_attr, st.booleans()).map(combine)
-    _strat_cache["invalid"] = strat
+    _strat_cache[("invalid", focus)] = strat
     return strat
 
 
@@ -1226,13 +1227,13 @@ def all_tapes(case):
     return FIXED_TAPES + [list(t) for t in case.get("tapes", [])]
 
 
-def case_strategy(invalid=False, depth=3, max_attrs=5, n_tapes=6):
+def case_strategy(invalid=False, depth=3, max_attrs=5, n_tapes=6, focus=None):
     st = _st()
     return st.fixed_dictionaries(
         {
             "kind": st.just("invalid" if invalid else "valid"),
             "ctx": context_strategy(),
-            "ast": invalid_args_strategy() if invalid else args_strategy(depth, max_attrs),
+            "ast": invalid_args_strategy(focus) if invalid else args_strategy(depth, max_attrs),
             "tapes": tapes_strategy(n_tapes),
         }
     )
